@@ -208,6 +208,11 @@ def opPlan : RM Res := do
     let okOrder := subseq origW wantOrig
     preds := preds ++ [P "C12.poses_in_order" (okOrder && (match wps.getLast? with | some w => hasFlag w.flags flagPark | none => false),
       s!"landing/stroke/parking waypoints: flags {origW.map (·.flags)}; expected {wantOrig.map (·.2)} each reproducing its pose")]
+    -- the LAND flag marks the landing waypoint and nothing else: exactly one waypoint carries it, it reproduces the
+    -- landing pose and it is not an interpolated one (waypoints of a subdivided step carry the flag of the pose they lead TO)
+    let landW := wps.filter (fun w => hasFlag w.flags flagLand)
+    preds := preds ++ [P "C12.land_flag" ((match landW with | [w] => fkOk w land && !(hasFlag w.flags flagLinInterp) | _ => false),
+      s!"{landW.length} waypoints carry LAND (flags {landW.map (·.flags)}); exactly one is expected, reproducing the landing pose")]
     preds := preds ++ [P "C12.interp_only_if_requested" (incl || wps.all (fun w => !(hasFlag w.flags flagLinInterp)), "interpolated waypoints returned although not requested")]
     -- interpolated waypoints lie on the straight segment between the original poses around them
     -- walk along the Cartesian part: a waypoint that carries the flag of the next original pose and reproduces it
